@@ -57,9 +57,18 @@ class Family:
     has_embedding = False
     supports_model_init = False
 
-    # -- to be provided
-    def fit(self, data, init, iterations, opts):
+    # -- to be provided: (trainer object, positional args, keyword args) of Trainer.fit / Trainer.fit_predict
+    def _setup(self, data, init, iterations, opts):
         raise NotImplementedError
+
+    def fit(self, data, init, iterations, opts):
+        tr, a, kw = self._setup(data, init, iterations, opts)
+        return tr.fit(*a, **kw)
+
+    def fit_predict(self, data, init, iterations, opts):
+        """the trainer's own `fit_predict` entry point (posteriors of the fitted model on the training data)"""
+        tr, a, kw = self._setup(data, init, iterations, opts)
+        return tr.fit_predict(*a, **kw)
 
     def log_pdf(self, model, data):
         """(..., K, N) component log densities of `data` under the fitted components"""
@@ -114,8 +123,8 @@ class CACGMMFamily(Family):
             kw['hermitize'] = opts['hermitize']
         return kw
 
-    def fit(self, data, init, iterations, opts):
-        return CACGMMTrainer().fit(data['y'], initialization=init, iterations=iterations, **self._kw(opts))
+    def _setup(self, data, init, iterations, opts):
+        return CACGMMTrainer(), (data['y'],), dict(initialization=init, iterations=iterations, **self._kw(opts))
 
     def continued(self, data, model, opts):
         return CACGMMTrainer().fit(data['y'], initialization=model, iterations=1, **self._kw(opts))
@@ -143,9 +152,9 @@ class CWMMFamily(Family):
     def _kw(self, opts):
         return dict(weight_constant_axis=_wca(opts.get('weight_constant_axis', (-1,))), saliency=opts.get('saliency'))
 
-    def fit(self, data, init, iterations, opts):
-        return CWMMTrainer(max_concentration=opts.get('max_concentration', 500)).fit(
-            data['y'], initialization=init, iterations=iterations, **self._kw(opts))
+    def _setup(self, data, init, iterations, opts):
+        return (CWMMTrainer(max_concentration=opts.get('max_concentration', 500)), (data['y'],),
+                dict(initialization=init, iterations=iterations, **self._kw(opts)))
 
     def continued(self, data, model, opts):
         # the trainer accepts affiliations only: one more iteration = E-step of the returned model + one M-step
@@ -167,10 +176,10 @@ class CWMMFamily(Family):
 class CBMMFamily(Family):
     name = 'cbmm'
 
-    def fit(self, data, init, iterations, opts):
-        return CBMMTrainer().fit(data['y'], initialization=init, iterations=iterations,
-                                 weight_constant_axis=_wca(opts.get('weight_constant_axis', (-1,))),
-                                 saliency=opts.get('saliency'))
+    def _setup(self, data, init, iterations, opts):
+        return CBMMTrainer(), (data['y'],), dict(initialization=init, iterations=iterations,
+                                                 weight_constant_axis=_wca(opts.get('weight_constant_axis', (-1,))),
+                                                 saliency=opts.get('saliency'))
 
     def log_pdf(self, model, data):
         return model.complex_bingham.log_pdf(unit(data['y'])[..., None, :, :])
@@ -193,8 +202,8 @@ class GMMFamily(Family):
         return dict(weight_constant_axis=_wca(opts.get('weight_constant_axis', (-1,))), saliency=opts.get('saliency'),
                     covariance_type=self.covariance_type)
 
-    def fit(self, data, init, iterations, opts):
-        return GMMTrainer().fit(data['y'], initialization=init, iterations=iterations, **self._kw(opts))
+    def _setup(self, data, init, iterations, opts):
+        return GMMTrainer(), (data['y'],), dict(initialization=init, iterations=iterations, **self._kw(opts))
 
     def continued(self, data, model, opts):
         return self.fit(data, model.predict(data['y']), 1, opts)
@@ -210,10 +219,10 @@ class VMFMMFamily(Family):
     name = 'vmfmm'
     complex_obs = False
 
-    def fit(self, data, init, iterations, opts):
-        return VMFMMTrainer().fit(data['y'], initialization=init, iterations=iterations,
-                                  weight_constant_axis=_wca(opts.get('weight_constant_axis', (-1,))),
-                                  saliency=opts.get('saliency'))
+    def _setup(self, data, init, iterations, opts):
+        return VMFMMTrainer(), (data['y'],), dict(initialization=init, iterations=iterations,
+                                                  weight_constant_axis=_wca(opts.get('weight_constant_axis', (-1,))),
+                                                  saliency=opts.get('saliency'))
 
     def log_pdf(self, model, data):
         return model.vmf.log_pdf(data['y'][..., None, :, :])
@@ -247,8 +256,8 @@ class GCACGMMFamily(_Integration):
                     eigenvalue_floor=opts.get('eigenvalue_floor', 1e-10),
                     spatial_weight=opts.get('spatial_weight', 1.), spectral_weight=opts.get('spectral_weight', 1.))
 
-    def fit(self, data, init, iterations, opts):
-        return GCACGMMTrainer().fit(data['y'], data['e'], initialization=init, iterations=iterations, **self._kw(opts))
+    def _setup(self, data, init, iterations, opts):
+        return GCACGMMTrainer(), (data['y'], data['e']), dict(initialization=init, iterations=iterations, **self._kw(opts))
 
     def log_pdf(self, model, data):
         """joint component log density: cACG(y) + Gaussian(e) (unit stream weights)"""
@@ -273,10 +282,10 @@ class GCACGMMFamily(_Integration):
 class VMFCACGMMFamily(_Integration):
     name = 'vmfcacgmm'
 
-    def fit(self, data, init, iterations, opts):
-        return VMFCACGMMTrainer().fit(data['y'], data['e'], initialization=init, iterations=iterations,
-                                      weight_constant_axis=_wca(opts.get('weight_constant_axis', (-1,))),
-                                      saliency=opts.get('saliency'))
+    def _setup(self, data, init, iterations, opts):
+        return VMFCACGMMTrainer(), (data['y'], data['e']), dict(initialization=init, iterations=iterations,
+                                                                weight_constant_axis=_wca(opts.get('weight_constant_axis', (-1,))),
+                                                                saliency=opts.get('saliency'))
 
     def mean(self, model):
         return model.vmf.mean
